@@ -1035,6 +1035,51 @@ func genAct0(r *vlib.Rand, k int, honest, other [5][]byte) actSpec {
 	}
 }
 
+// sizeEdit rewrites only the 4-byte size field of the honest frame f (everything else stays as the sender wrote it).
+//   over1 / maxu32 / over: announced size above the 200 KiB limit (oversized)
+//   atlimit / longer:       announced size within the limit but more than what follows (truncated: the reader waits, the
+//                           middle man then ends the stream)
+//   shorter / zero:         announced size smaller than the payload (the rest of the payload is met as the next frame)
+var sizeEdits = []string{"over1", "maxu32", "over", "atlimit", "longer", "shorter", "zero"}
+
+func sizeEdit(r *vlib.Rand, f []byte, how string, cut bool) actSpec {
+	g := append([]byte(nil), f...)
+	real := len(g) - 5
+	var n uint32
+	switch how {
+	case "over1":
+		n = sizeLimit + 1
+	case "maxu32":
+		n = 0xffffffff
+	case "over":
+		n = uint32(sizeLimit + 2 + r.Intn(1<<20))
+	case "atlimit":
+		n = sizeLimit
+	case "longer":
+		n = uint32(real + 1 + r.Intn(60))
+	case "shorter":
+		if real >= 2 {
+			n = uint32(r.Intn(real-1) + 1)
+		} else if real == 1 {
+			n = 0
+		} else {
+			n = 1 // an empty payload cannot be announced shorter: announce one byte that never comes
+		}
+	default: // zero
+		if real == 0 {
+			n = 2
+		} else {
+			n = 0
+		}
+	}
+	binary.LittleEndian.PutUint32(g[1:5], n)
+	a := actSpec{Replace: true, Hex: hx(g), Cut: cut, How: "size_" + how}
+	if incomplete(g) {
+		a.Cut = true
+	}
+	return a
+}
+
 func main() {
 	o := vlib.ParseFlags()
 	vlib.Quiet()
@@ -1170,6 +1215,37 @@ func main() {
 			}
 		}
 		rn.do(cs)
+	}
+
+	// 2b. size-field edits: for EVERY one of the four frames, over BOTH kinds of pipe (a write to an end that has
+	// already hung up fails = net.Pipe-like / is accepted locally = buffered, TCP-like), every kind of wrong size
+	// announcement; nothing else is touched.  Pairs are compatible, so that without the edit the handshake succeeds.
+	for rep := 0; rep < 3*mult; rep++ {
+		cr := r.Fork(uint64(1500000 + rep))
+		for k := 1; k <= 4; k++ {
+			for _, wfail := range []bool{false, true} {
+				for _, how := range sizeEdits {
+					out := genSide(cr, 0, "PAAA", "PBBB")
+					in := genSide(cr, 1, "PBBB", "PAAA")
+					in.List, out.List = []uint32{out.Ver, in.Ver, 77}, []uint32{in.Ver, out.Ver, 77}
+					in.Verify = out.Verify || in.Verify
+					out.Verify = in.Verify
+					in.CV, out.CV = "cvB", "cvA"
+					honest := record(out, in)
+					f := honest[k]
+					if f == nil {
+						f = frameOf(2, nil)
+					}
+					cs := caseSpec{Out: out, In: in, WFail: wfail, Seed: genSeed(cr), Chunk: cr.U64() % 1000, Gen: "size_field"}
+					cs.Acts[k-1] = sizeEdit(cr, f, how, cr.Chance(1, 3))
+					if data, _ := hex.DecodeString(cs.Acts[k-1].Hex); len(itemsOf(data)) > 1 {
+						cs.WFail = false // several frames injected at once: only the schedule-independent variant (see above)
+					}
+					w.Stat(fmt.Sprintf("size_field_frame%d_wfail_%v", k, cs.WFail))
+					rn.do(cs)
+				}
+			}
+		}
 	}
 
 	// 3. cancellation at every frame boundary
